@@ -86,11 +86,16 @@ func Verif_C20_D1_AccessorsSymbolicHash() {
 	verifC20ObserveString("value", d.String())
 }
 
-// Verif_C20_D1_HashBytes: GetHashBytes is the binary form of a hash with two
-// symbolic characters.
+// Verif_C20_D1_HashBytes: GetHashBytes is the binary form of a hash with one
+// (thorough: two) symbolic character(s).
 func Verif_C20_D1_HashBytes() {
-	f := verifC20Funcs[vnd.Choose(len(verifC20Funcs))]
-	hash := verifC20Hash(f.hexLen, []int{1, f.hexLen - 2})
+	fs := verifC20SymFuncs()
+	f := fs[vnd.Choose(len(fs))]
+	sym := []int{f.hexLen - 2}
+	if vnd.Thorough() {
+		sym = []int{1, f.hexLen - 2}
+	}
+	hash := verifC20Hash(f.hexLen, sym)
 	d := verifC20NewDigest("a/b", f, hash, 42)
 	hb := d.GetHashBytes()
 	vnd.Cover("hashbytes")
